@@ -94,16 +94,18 @@ Qed.
 (* ------------------------------------------------------------------------------------------------ *)
 (* to_decimal: totality and the shape of the result *)
 
-Definition inv1 (neg : bool) (d : Z * Z * bool) (_ : Z) : Prop :=
-  den_norm C (den_man d) /\ den_neg d = neg /\ 1 <= den_exp d.
-Definition inv2 (neg : bool) (d : Z * Z * bool) (_ : Z) : Prop :=
-  den_norm C (den_man d) /\ den_neg d = neg /\ 1 <= den_exp d <= texp + 1.
+Definition inv1 (neg : bool) (e0 : Z) (d : Z * Z * bool) (x : Z) : Prop :=
+  den_norm C (den_man d) /\ den_neg d = neg /\ 1 <= den_exp d /\
+  0 <= x /\ 3 * x + den_exp d <= e0 /\ (x = 0 \/ texp - 4 <= den_exp d).
+Definition inv2 (neg : bool) (x1 e2 : Z) (d : Z * Z * bool) (x : Z) : Prop :=
+  den_norm C (den_man d) /\ den_neg d = neg /\ 1 <= den_exp d <= texp + 1 /\
+  x <= x1 /\ 3 * (x1 - x) <= den_exp d - e2.
 
-Lemma inv1_step neg den e10 : inv1 neg den e10 -> mbf_abs_gt_den C den (texp, tman, false) = true ->
-  exists den', mbf_div10_den C den = Ok den' /\ inv1 neg den' (e10 + 1) /\ den_exp den' <= den_exp den - 3.
+Lemma inv1_step neg e0 den e10 : inv1 neg e0 den e10 -> mbf_abs_gt_den C den (texp, tman, false) = true ->
+  exists den', mbf_div10_den C den = Ok den' /\ inv1 neg e0 den' (e10 + 1) /\ den_exp den' <= den_exp den - 3.
 Proof.
   destruct den as [[e m] n]. unfold inv1. cbn [den_exp den_man den_neg fst snd].
-  intros (Hn & Hs & He) Hgt. rewrite abs_gt_den_spec in Hgt.
+  intros (Hn & Hs & He & Hx & Hsum & Hlow) Hgt. rewrite abs_gt_den_spec in Hgt.
   destruct (div10_spec C HC Hten e m n Hn) as (e' & m' & Hd & Hn' & Hcase).
   exists (e', m', n). cbn [den_exp den_man den_neg fst snd].
   split; [exact Hd|]. destruct Hlims as (_ & _ & Hb1 & Hb2 & _).
@@ -111,11 +113,11 @@ Proof.
   unfold den_norm in *. repeat split; try assumption; lia.
 Qed.
 
-Lemma inv2_step neg den e10 : inv2 neg den e10 -> mbf_abs_gt_den C (bexp, bman, false) den = true ->
-  inv2 neg (mbf_mul10_den C den) (e10 - 1) /\ den_exp den + 3 <= den_exp (mbf_mul10_den C den).
+Lemma inv2_step neg x1 e2 den e10 : inv2 neg x1 e2 den e10 -> mbf_abs_gt_den C (bexp, bman, false) den = true ->
+  inv2 neg x1 e2 (mbf_mul10_den C den) (e10 - 1) /\ den_exp den + 3 <= den_exp (mbf_mul10_den C den).
 Proof.
   destruct den as [[e m] n]. unfold inv2. cbn [den_exp den_man den_neg fst snd].
-  intros (Hn & Hs & He) Hgt. rewrite abs_gt_den_spec in Hgt.
+  intros (Hn & Hs & He & Hx & Hsum) Hgt. rewrite abs_gt_den_spec in Hgt.
   destruct (mul10_spec C HC e m n ltac:(lia) Hn) as (e' & m' & Hd & Hn' & Hcase).
   rewrite Hd. cbn [den_exp den_man den_neg fst snd].
   destruct Hlims as (_ & _ & Hb1 & Hb2 & _).
@@ -123,35 +125,37 @@ Proof.
   unfold den_norm in *. repeat split; try assumption; lia.
 Qed.
 
-(* shape of to_decimal's result: tail_num of a normalised den whose exponent is at most texp + 2 *)
+(* shape of to_decimal's result: tail_num of a normalised den whose exponent is at most texp + 2;
+   the decimal exponent (= the numbers of passes through the two loops) is bounded by the exponent range *)
 Theorem to_decimal_shape b : buf_ok C b -> f_zero b = false ->
   exists e m e10, f_to_decimal C b = Ok (tail_num C e m (f_neg C b), e10)
-    /\ den_norm C m /\ 1 <= e <= texp + 2.
+    /\ den_norm C m /\ 1 <= e <= texp + 2 /\ - texp <= 3 * e10 <= 259 - texp.
 Proof.
   intros Hb Hz. destruct Hlims as (Htn & Hbn & Hb1 & Hb2 & Ht255).
   unfold f_to_decimal, mbf_to_decimal_core. rewrite Htop, Hbot, (denormalise_spec C b HC Hb).
   pose proof (f_man_bound C b HC) as Hfm. pose proof (f_exp_bound C b HC Hb) as Hfe.
   unfold f_zero in Hz. apply Z.eqb_neq in Hz.
-  assert (HI1 : inv1 (f_neg C b) (f_exp b, 256 * f_man C b, f_neg C b) 0).
+  assert (HI1 : inv1 (f_neg C b) (f_exp b) (f_exp b, 256 * f_man C b, f_neg C b) 0).
   { unfold inv1, den_norm, hb. cbn [den_exp den_man den_neg fst snd].
     pose proof (mbits_ge C HC). rewrite (pow2_pred (mbits C)) in Hfm by lia.
     split; [lia | split; [reflexivity | lia]]. }
-  destruct (loop103_inv (inv1 (f_neg C b)) b (c_lim_bot C) (c_lim_top C) (bexp, bman, false) tman false
-              (inv1_step (f_neg C b)) 90 1000 _ 0 ltac:(lia) HI1) as (d1 & x1 & Hl1 & HI1' & Hgt1).
+  destruct (loop103_inv (inv1 (f_neg C b) (f_exp b)) b (c_lim_bot C) (c_lim_top C) (bexp, bman, false) tman false
+              (inv1_step (f_neg C b) (f_exp b)) 90 1000 _ 0 ltac:(lia) HI1) as (d1 & x1 & Hl1 & HI1' & Hgt1).
   { cbn [den_exp fst]. lia. }
   rewrite Hl1. cbn [bind]. cbv beta iota.
-  destruct d1 as [[e1 m1] n1]. destruct HI1' as (Hn1 & Hs1 & He1). cbn [den_exp den_man den_neg fst snd] in *.
+  destruct d1 as [[e1 m1] n1]. destruct HI1' as (Hn1 & Hs1 & He1 & Hx1 & Hsum1 & Hlow1).
+  cbn [den_exp den_man den_neg fst snd] in *.
   rewrite abs_gt_den_spec in Hgt1.
   assert (He1t : e1 <= texp) by (destruct (Z.ltb_spec texp e1), (Z.eqb_spec texp e1); cbn in Hgt1; try discriminate; lia).
   destruct (apply_carry_spec C HC e1 m1 n1 Hn1) as (e2 & m2 & Hc2 & Hn2 & Hm2 & Hcase2).
   rewrite Hc2.
-  assert (HI2 : inv2 (f_neg C b) (e2, m2, n1) x1).
+  assert (HI2 : inv2 (f_neg C b) x1 e2 (e2, m2, n1) x1).
   { unfold inv2. cbn [den_exp den_man den_neg fst snd]. split; [exact Hn2 | split; [exact Hs1 | lia]]. }
-  destruct (loop104_inv (inv2 (f_neg C b)) b (c_lim_bot C) (c_lim_top C) (texp, tman, false) bman false
-              (inv2_step (f_neg C b)) 90 1000 _ x1 ltac:(lia) HI2) as (d3 & x3 & Hl3 & HI3 & Hgt3).
+  destruct (loop104_inv (inv2 (f_neg C b) x1 e2) b (c_lim_bot C) (c_lim_top C) (texp, tman, false) bman false
+              (inv2_step (f_neg C b) x1 e2) 90 1000 _ x1 ltac:(lia) HI2) as (d3 & x3 & Hl3 & HI3 & Hgt3).
   { cbn [den_exp fst]. lia. }
   rewrite Hl3. cbn [bind]. cbv beta iota.
-  destruct d3 as [[e3 m3] n3]. destruct HI3 as (Hn3 & Hs3 & He3). cbn [den_exp den_man den_neg fst snd] in *.
+  destruct d3 as [[e3 m3] n3]. destruct HI3 as (Hn3 & Hs3 & He3 & Hx3 & Hsum3). cbn [den_exp den_man den_neg fst snd] in *.
   destruct (apply_carry_spec C HC e3 m3 n3 Hn3) as (e4 & m4 & Hc4 & Hn4 & Hm4 & Hcase4).
   rewrite Hc4. cbv beta iota.
   exists e4, m4, x3. split.
@@ -198,10 +202,11 @@ Qed.
 (* mantissa and exponent used by to_str: fewer than `digits` digits after the carry renormalisation *)
 Theorem decimal_bound b S : buf_ok C b -> f_zero b = false ->
   0 <= S -> texp + 2 - c_bias C <= S -> 2 * hb C * 2 ^ S <= 10 * 10 ^ c_digits C - 10 ->
-  exists num e10, f_decimal C b = Ok (num, e10) /\ Z.abs num < 10 ^ c_digits C.
+  exists num e10, f_decimal C b = Ok (num, e10) /\ Z.abs num < 10 ^ c_digits C /\
+                  - texp <= 3 * e10 <= 262 - texp.
 Proof.
   intros Hb Hz HS HtS Hbig.
-  destruct (to_decimal_shape b Hb Hz) as (e & m & e10 & Hd & Hn & He).
+  destruct (to_decimal_shape b Hb Hz) as (e & m & e10 & Hd & Hn & He & Hx).
   pose proof (tail_num_bound e m (f_neg C b) S Hn HS ltac:(lia)) as Hbound.
   unfold f_decimal. rewrite Hd. cbn [bind fst snd]. unfold mbf_to_str_carry.
   set (num := tail_num C e m (f_neg C b)) in *. set (D := 10 ^ c_digits C) in *.
